@@ -38,8 +38,11 @@ def analyse_loops(repo: Repo, run: Run, interp, mod, fn, cls, reader: T, eof_rai
     reads = read_calls(rec, reader)
     n = 0
     raises_at_eof = False
+    # loops of fn itself, and loops of the private generators it delegates to with `yield from` (expanded in place): those
+    # are the loops that contain a yield of this generator
+    yielding = {l_ for r in rec.returns if r.kind in ("yield", "yield_from") for l_ in r.loops}
     for lid, lr in rec.loops.items():
-        if lr.kind not in ("while", "for") or not lr.func.endswith(fn.name):
+        if lr.kind not in ("while", "for") or not (lr.func.endswith(fn.name) or lid in yielding):
             continue
         inside_reads = [c for c in reads if lid in c.loops]
         parse_calls = [c for c in rec.calls if lid in c.loops and c.func.op == "attr" and c.func.a[1] == "parse_stream"
@@ -223,7 +226,10 @@ def check(repo: Repo, run: Run) -> None:
         fn = repo.method(modname, cname, "feed_generator")
         rec = interp.run(ci.module, fn, self_cls=ci)
         gen = param(fn.args.args[1].arg)
-        loops = [lr for lr in rec.loops.values() if lr.kind == "for" and lr.func.endswith("feed_generator") and lr.parent is None]
+        ylds = [r for r in rec.returns if r.kind in ("yield", "yield_from")]
+        # the pass may live in a private generator that feed_generator delegates to (expanded in place)
+        loops = [lr for lr in rec.loops.values() if lr.kind == "for" and lr.parent is None and
+                 (lr.func.endswith("feed_generator") or any(lr.id in y.loops for y in ylds))]
         mats = [c for c in rec.calls if c.func.op == "builtin" and c.func.a[0] in pipeline.MATERIALISERS and gen in c.args]
         ok = rec.is_generator and len(loops) == 1 and loops[0].iter == gen and not mats
         run.ob("R3", ci.module.name, f"{cname}.feed_generator", "generator over its input, one pass", ok,
@@ -235,11 +241,28 @@ def check(repo: Repo, run: Run) -> None:
     gen, cnt = param(fn.args.args[0].arg), param(fn.args.args[1].arg)
     ENUM = T("builtin", ("enumerate",))
 
+    TAKEWHILE = T("global", ("itertools.takewhile",))
+
+    def _counted_takewhile(it):
+        """takewhile(lambda pair: pair[0] != count, enumerate(generator)): the same pass, stopped when the index reaches
+        the count - before that element is printed"""
+        if it is not None and it.op == "call" and it.a[0] == TAKEWHILE and len(it.a[1]) == 2:
+            pred, src = it.a[1]
+            if src.op == "call" and src.a[0] == ENUM and src.a[1] and src.a[1][0] == gen and len(src.a[1]) == 1 \
+                    and pred.op == "lambda" and len(pred.a) > 1:
+                atom, pol = render.norm_bool(pred.a[1])
+                if atom.op == "cmp" and atom.a[0] == "==" and not pol and cnt in (atom.a[1], atom.a[2]):
+                    other = atom.a[1] if atom.a[2] == cnt else atom.a[2]
+                    return other.op == "sub" and other.a[0].op == "bound" and other.a[1] == const(0)
+        return False
+
     def over_gen(it):
         """the loop iterates the generator itself or enumerate(generator[, start]): returns how to get the element"""
         if it == gen:
             return lambda tgt: tgt
         if it is not None and it.op == "call" and it.a[0] == ENUM and it.a[1] and it.a[1][0] == gen:
+            return lambda tgt: T("sub", (tgt, const(1)))
+        if _counted_takewhile(it):
             return lambda tgt: T("sub", (tgt, const(1)))
         return None
     loops = [lr for lr in rec.loops.values() if lr.kind == "for" and over_gen(lr.iter) is not None]
@@ -248,6 +271,8 @@ def check(repo: Repo, run: Run) -> None:
         and loops[0].id in prints[0].loops
     brk = [e for lr in loops for e in lr.exits if e[0] in ("break", "return")]
     stops = bool(brk) and all(any(sym.contains(c, cnt) for c, _ in e[1]) for e in brk) and (not brk or brk[0][2] < prints[0].seq)
+    if not brk and len(loops) == 1 and _counted_takewhile(loops[0].iter):
+        stops = True
     mats = [c for c in rec.calls if c.func.op == "builtin" and c.func.a[0] in pipeline.MATERIALISERS and gen in c.args]
     run.ob("R3", main.name, "print_with_count", "prints each element as it arrives", ok and not mats,
            "print_with_count does not print each element of the generator inside a single loop over it", line=fn.lineno)
